@@ -383,7 +383,10 @@ async def session(st, messages, settle=0.4):
 
 
 SUB_IDS_JSON = ['"s"', '"s\\"2\\\\"', '"a\\",\\"b"', '"\\u0000"', '"\\n"', '"\\u001f\\u007f"', '"\\ud83d\\ude00"', '"é"', '""', '"' + "x" * 300 + '"',
-                "1", "-5", "1.5", "true", "false", "null", '["a","b"]', '{"a":1}', "[]", '[["x"]]', '"\\\\"', '"</script>"', '"\\u2028"', '" "']
+                "1", "-5", "1.5", "true", "false", "null", '["a","b"]', '{"a":1}', "[]", '[["x"]]', '"\\\\"', '"</script>"', '"\\u2028"', '" "',
+                # strings a JSON library may be tempted to read as something else (dates, times, UUIDs, numbers)
+                '"2024-05-01T10:00:00.000Z"', '"2024-05-01T10:00:00+02:00"', '"10:00:00.5"', '"2024-05-01"', '"6F9619FF-8B86-D011-B42D-00C04FC964FF"',
+                '"6f9619ff-8b86-d011-b42d-00c04fc964ff"', '"1e5"', '"NaN"', '"Infinity"', '"0x10"']
 
 
 def suite_sessions(tier, rng):
@@ -417,7 +420,10 @@ def suite_sessions(tier, rng):
                 # OK / NOTICE frames
                 good = mk_signed(1, 1, env.NOW, [["t", 'x"y']], "ok\nframe")
                 forged = dict(good, content="changed")
+                rep = mk_signed(2, 10002, env.NOW - 3, [["r", "wss://x"]], "relay list")
+                par = mk_signed(2, 30023, env.NOW - 3, [["d", "a"]], "article 2024-05-01T10:00:00.000Z 6F9619FF-8B86-D011-B42D-00C04FC964FF")
                 msgs = [json.dumps(["EVENT", good]), json.dumps(["EVENT", good]), json.dumps(["EVENT", forged]), '["EVENT",{"id":5}]', '["EVENT","x"]',
+                        json.dumps(["EVENT", rep]), json.dumps(["EVENT", rep]), json.dumps(["EVENT", par]), json.dumps(["EVENT", par]), json.dumps(["EVENT", rep]),
                         '["REQ","s",5]', '["REQ","s",{"kinds":"x"}]', '["CLOSE","nope"]', '["BOGUS",1]', "not json", '["REQ"]',
                         '["REQ","t",{"ids":["zz"]}]', '["EVENT",{"id":"%s","pubkey":"%s","created_at":1,"kind":1,"tags":[],"content":"x","sig":"%s"}]' % ("0" * 64, "1" * 64, "2" * 128)]
                 frames = await session(st, msgs)
@@ -450,6 +456,12 @@ def suite_sessions(tier, rng):
                         s.violate("connection-closed", {"backend": backend, "messages": msgs}, "the session was closed by the relay (%s)" % raw)
                         continue
                     items.append(({"path": "start_client", "backend": backend, "messages": msgs}, raw, None))
+                    pyv = py_loads(raw)
+                    if pyv is not None and isinstance(pyv[0], list) and pyv[0][:1] == ["OK"]:
+                        fr = pyv[0]
+                        if not (len(fr) == 4 and isinstance(fr[1], str) and isinstance(fr[2], bool) and isinstance(fr[3], str)):
+                            s.violate("ok-frame-malformed", {"backend": backend, "messages": msgs, "raw": raw},
+                                      "an OK frame is not [\"OK\", <event id string>, <true|false>, <message string>]", observed=raw[:300])
                 if len(frames) < 6:
                     s.disagree({"backend": backend, "messages": msgs}, ">= 6 OK/NOTICE frames", [f[:100] for f in frames])
             judge_frames(s, items, "web.start_client")
